@@ -152,6 +152,11 @@ def gen_mod(rng, size=1.0):
         if f["name"] and f["blocks"]:
             for bid in block_ids(f):
                 m.blockaddrs.append((f["name"], bid))      # named and UNNAMED (%N) blocks alike
+    def ba_ty(fn):
+        # the address of a block is a pointer in the address space of its function
+        a = next((f.get("as") or 0 for f in m.funcs if f["name"] == fn), 0)
+        return "i8 addrspace(%d)*" % a if a else "i8*"
+    m.ba_ty = ba_ty
     if m.blockaddrs:
         taken = {g["name"] for g in m.globals}
         for k in range(rng.randint(0, 2)):
@@ -159,13 +164,13 @@ def gen_mod(rng, size=1.0):
             nm = "ba%d" % k
             if nm not in taken:
                 m.globals.insert(rng.randint(0, len([g for g in m.globals if g["kind"] == "G"])),
-                                 {"kind": "G", "name": nm, "ty": "i8*", "init": "blockaddress(@%s, %%%s)" % (fn, bn), "refs": [fn], "comdat": None, "md": None, "linkage": "",
+                                 {"kind": "G", "name": nm, "ty": ba_ty(fn), "init": "blockaddress(@%s, %%%s)" % (fn, bn), "refs": [fn], "comdat": None, "md": None, "linkage": "",
                                   "brefs": [(fn, bn)]})
         for i in list(m.mds):
             if rng.random() < 0.25:
                 fn, bn = rng.choice(m.blockaddrs)
                 d, fields, refs = m.mds[i]
-                m.mds[i] = (d, fields + ["i8* blockaddress(@%s, %%%s)" % (fn, bn)], refs)
+                m.mds[i] = (d, fields + ["%s blockaddress(@%s, %%%s)" % (ba_ty(fn), fn, bn)], refs)
                 m.mds[i] = m.mds[i] + ([fn], [(fn, bn)])
         if rng.random() < 0.3:
             fn, bn = rng.choice(m.blockaddrs)
@@ -505,7 +510,7 @@ def render(m, rng=None, shuffle=False):
         mds.append("!%d = %s!{%s}" % (i, "distinct " if d else "", ", ".join(fields)))
         mbrefs = m.mds[i][4] if len(m.mds[i]) > 4 else []
         sk.append("M|%d|%s|||%s" % (i, " ".join(["M=%d" % r for r in refs] + ["G=" + x for x in frefs]), " ".join("%s:%s" % b for b in mbrefs)))
-    uls = ["uselistorder i8* blockaddress(@%s, %%%s), { 1, 0 }" % (fn, bn) for fn, bn in m.uselist]
+    uls = ["uselistorder %s blockaddress(@%s, %%%s), { 1, 0 }" % (m.ba_ty(fn), fn, bn) for fn, bn in m.uselist]
     for fn, bn in m.uselist:
         sk.append("U|#|G=%s|||%s:%s" % (fn, fn, bn))
     if not shuffle:
